@@ -324,7 +324,7 @@ func ruleC02b(c *Ctx) {
 								if ia, ok := ref.(*ssa.IndexAddr); ok {
 									for _, rr := range referrers(ia) {
 										if st, ok := rr.(*ssa.Store); ok && st.Addr == ssa.Value(ia) {
-											if env.predOfFact(f, env.resolveKey(st.Val), b)&pr != 0 {
+											if env.predOfFact(f, env.resolveKey(st.Val), b)&pr != 0 || (pr == pIf && env.predsAt(b, env.resolveKey(st.Val))&pIf != 0) {
 												stageBlocks[k+1] = b
 											}
 										}
